@@ -209,7 +209,7 @@ def insert_ensures(m, stats=True):
          '&& sync_victim_ok(old(self).policy, %s.insert(%s, e), %s, v, old(self).ttl) '
          '&& %s == #[trigger] %s.insert(%s, e).remove(v) && final(self).order@ == rm1(%s, v)' % (Q1, M0, K, Q1, M1, M0, K, Q1)),
         ('survivors_unchanged', ['C01', 'C13'], 'forall|x: String| x != %s && #[trigger] %s.contains_key(x) ==> %s.contains_key(x) && %s[x] == %s[x]' % (K, M1, M0, M1, M0)),
-        ('last_store_wins', ['C01', 'C11', 'C03', 'C09', 'C10'], '%s.contains_key(%s) ==> %s[%s].value == value && %s[%s].frequency == 0' % (M1, K, M1, K, M1, K)),
+        ('last_store_wins', ['C01', 'C11', 'C03', 'C09', 'C10', 'C06'], '%s.contains_key(%s) ==> %s[%s].value == value && %s[%s].frequency == 0 && taken_now(%s[%s].inserted_at)' % (M1, K, M1, K, M1, K, M1, K)),
         ('bound', ['C04'], '(old(self).limit is Some && old(self).limit->Some_0 >= 1 && old(self).order@.len() <= old(self).limit->Some_0) ==> final(self).order@.len() <= old(self).limit->Some_0'),
     ]
     if stats:
@@ -240,7 +240,7 @@ def insertm_ensures(m):
         ('fits_no_eviction', ['C05', 'C03', 'C04'], '(!%s && %s && (old(self).limit is None || %s.len() <= old(self).limit->Some_0)) ==> '
          'final(self).order@ == %s && %s.dom() == %s.dom().insert(%s)' % (OVERSIZE, MEMFITS, Q1, Q1, M1, M0, K)),
         ('survivors_unchanged', ['C01', 'C05'], 'forall|x: String| x != %s && #[trigger] %s.contains_key(x) ==> %s.contains_key(x) && %s[x] == %s[x]' % (K, M1, M0, M1, M0)),
-        ('last_store_wins', ['C01', 'C11', 'C03', 'C09', 'C10'], '%s.contains_key(%s) ==> %s[%s].value == value && %s[%s].frequency == 0' % (M1, K, M1, K, M1, K)),
+        ('last_store_wins', ['C01', 'C11', 'C03', 'C09', 'C10', 'C06'], '%s.contains_key(%s) ==> %s[%s].value == value && %s[%s].frequency == 0 && taken_now(%s[%s].inserted_at)' % (M1, K, M1, K, M1, K, M1, K)),
         ('fifo_lru_oldest_first', ['C07'], '(!%s && (old(self).policy is FIFO || old(self).policy is LRU)) ==> is_suffix(final(self).order@, %s)' % (OVERSIZE, Q1)),
         # C08 under memory pressure: every evicted entry (the zero-hit newcomer included) had no more hits than any survivor
         ('lfu_evicts_least_frequent', ['C08'], '(!%s && old(self).policy is LFU) ==> forall|x: String, y: String| #![trigger %s.contains_key(x), %s.contains_key(y)] '
@@ -275,8 +275,8 @@ def memloop_spec(m, o, K='s2s(key)'):
                     '&& (self.policy is TLRU ==> tlru_cfg_ok(self.ttl, self.frequency_weight))'),
             ('counters', 'freq_ok(%s)' % MS),
             ('pre_facts', 'wf(%s, old(self).order@)' % M0),
-            ('submap', 'forall|x: String| #[trigger] %s.contains_key(x) ==> (if x == %s { %s[x].value == value && %s[x].frequency == 0 } else { %s.contains_key(x) && %s[x] == %s[x] })'
-             % (MS, K, MS, MS, M0, MS, M0)),
+            ('submap', 'forall|x: String| #[trigger] %s.contains_key(x) ==> (if x == %s { %s[x].value == value && %s[x].frequency == 0 && taken_now(%s[x].inserted_at) } else { %s.contains_key(x) && %s[x] == %s[x] })'
+             % (MS, K, MS, MS, MS, M0, MS, M0)),
             ('total_bounded', 'mem_total(%s, %s@) <= %s' % (MS, o, REST)),
             ('no_needless', '%s <= max_mem ==> %s@ == touch(old(self).order@, %s) && %s.dom() == %s.dom().insert(%s)' % (REST, o, K, MS, M0, K)),
             ('oldest_first', '(self.policy is FIFO || self.policy is LRU) ==> is_suffix(%s@, touch(old(self).order@, %s))' % (o, K)),
@@ -298,8 +298,8 @@ def insert_result_ensures(m):
         CFG_FRAME,
         ('err_changes_nothing', ['C09'], 'value is Err ==> %s == %s && final(self).order@ == old(self).order@ && final(self).stats == old(self).stats' % (M1, M0)),
         ('post_wf', ['C04', 'C09', 'C01', 'C03', 'C10', 'C11', 'C05', 'C07', 'C08', 'C13'], 'wf(%s, final(self).order@)' % M1),
-        ('ok_stored', ['C09', 'C01'], '(value is Ok && %s.contains_key(%s)) ==> %s[%s].value is Ok && cloned(value->Ok_0, %s[%s].value->Ok_0) && %s[%s].frequency == 0'
-         % (M1, K, M1, K, M1, K, M1, K)),
+        ('ok_stored', ['C09', 'C01', 'C06'], '(value is Ok && %s.contains_key(%s)) ==> %s[%s].value is Ok && cloned(value->Ok_0, %s[%s].value->Ok_0) && %s[%s].frequency == 0 && taken_now(%s[%s].inserted_at)'
+         % (M1, K, M1, K, M1, K, M1, K, M1, K)),
         ('ok_fits_exact', ['C09', 'C03', 'C04'], '(value is Ok && (old(self).limit is None || %s.len() <= old(self).limit->Some_0)) ==> '
          'final(self).order@ == %s && %s.dom() == %s.dom().insert(%s)' % (Q1, Q1, M1, M0, K)),
         ('survivors_unchanged', ['C01', 'C09'], 'forall|x: String| x != %s && #[trigger] %s.contains_key(x) ==> %s.contains_key(x) && %s[x] == %s[x]' % (K, M1, M0, M1, M0)),
